@@ -13,6 +13,7 @@ func init() {
 	register(&Property{
 		ID: "C11",
 		Explanation: "Decides in request.buildHTTP and NamedReader: R11.1 read-length discipline — after n, err := x.Read(buf) every later use of that buffer as data is buf[:n] with that very n (the sniffed content type is computed from the content read, and the bytes read are re-prepended to the REST of the stream: the part body is NamedReader(MultiReader(bytes.NewReader(buf[:n]), <original file>)) or the original file); " +
+			"Round 12: R11.3 the buffer is fresh for every build; R11.2 getRequestBuffer shows the buffer's bytes unaltered; R11.1 the sniffing window is 512 bytes. " +
 			"R11.2 what auth saw is what is sent: the GetBody override is installed whenever the body is not the request's own buffer, its first call copies the streaming body into the buffer, closes it, rebinds the body variable to the buffer before returning the bytes, later calls serve the buffer, copy/close errors are returned in preference to the auth error, and the body given to the http.Request is read from that variable after authentication; " +
 			"R11.3 the Content-Type header is set from the chosen media type on every body-carrying path, and for multipart from the boundary of the very multipart.Writer that writes into the pipe whose read end is the body; R11.4 every form field value and every file is visited exactly by construction of the loops (no iteration skips WriteField / CreatePart+Copy), with the part header built from escapeQuotes(field name) and escapeQuotes(filepath.Base(file name)), a declared ContentType() taking precedence over sniffing, and escapeQuotes always applying the backslash-and-quote replacer; R11.5 NamedReader forwards Read/Close/Name and wraps non-closers in io.NopCloser. " +
 			"R11.5 also: NamedReader always returns a wrapper allocated by this call. " +
